@@ -195,6 +195,7 @@ KEEP = [
     ("C03.h IGNORE-POINT", ("sorted", "formatter-type")),
     ("C03.c BELLMAN", ("initial-starts",)),
     ("C02.f BACKTRACK", None),
+    ("C02.c IDX-GATHER", ("back-pointer",)),
     ("C02.b BELLMAN", ("initial-starts",)),
     ("C07.a ARGMAX-SPLIT", ("cuts|splits", "cuts|outer")),
     ("C07.a IDX-GATHER", None),
